@@ -7,7 +7,7 @@
 From Coq Require Import ZArith List Bool Lia.
 From Coq Require Import Reals.
 From RV Require C04.Model.
-From RV Require Import Common.Num Common.RealNum C09.Model C09.Proofs C09.Run C09.Concrete.
+From RV Require Import Common.Num Common.RealNum C09.Model C09.Proofs C09.Run C09.Concrete C09.GetSim Gen.C09GetSim.
 Import ListNotations.
 
 (* ------------------------------------------------------------------ (c) synchronize twice = once *)
@@ -240,6 +240,43 @@ Print Assumptions C09_whfast_exact_finish_eq_safe.
 Theorem C09_exact_finish_with_keep_unsynchronized_refuted :
   toy_exact true false = (14, 0)%Z /\ toy_exact false false = (14, 0)%Z /\ toy_exact false true = (13, 0)%Z.
 Proof. repeat split; vm_compute; reflexivity. Qed.
+
+(* ------------------------------------------------------------------ the archive path: Simulationarchive.getSimulation (Python)
+   [getsim_body] is regenerated from the current rebound/simulationarchive.py.  integrate with exact_finish_time = 1 from
+   an unsynchronized state (a snapshot of a safe_mode = 0 run) first synchronizes and continues from the synchronized
+   coordinates UNLESS keep_unsynchronized is set (C09_whfast_exact_finish_eq_safe versus
+   C09_exact_finish_with_keep_unsynchronized_refuted).  Therefore mode 'exact' must reach the library with
+   keep_unsynchronized = 0 in ri_whfast and ri_saba whatever the caller passed (the default is 1): the assignment
+   keep_unsynchronized = 0 for mode 'exact' must dominate the copies into the integrator structures. *)
+Definition flag_for (i target : ginteg) (v : bool) : option bool := if ginteg_eqb i target then Some v else None.
+
+(* for the integrator in use, mode 'exact' reaches integrate with keep_unsynchronized = 0 and exact_finish_time = 1 *)
+Theorem C09_getsim_exact_mode_integrates_with_keep_unsynchronized_0 : forall integ safe keep_arg,
+  getsim_events getsim_body Exact integ safe keep_arg
+  = ([EvIntegrate (flag_for integ IWhfast false) (flag_for integ ISaba false) (Some true)], true).
+Proof. intros [| | |] [|] [|]; vm_compute; reflexivity. Qed.
+
+(* the other two modes pass the caller's choice on to the integrator in use (forced to 0 for an archive written in safe
+   mode) and do exactly one synchronize / one integrate without exact finishing *)
+Theorem C09_getsim_close_and_snapshot_modes : forall integ safe keep_arg,
+  let k := keep_arg && negb (match integ with IOther => false | _ => safe end) in
+  getsim_events getsim_body Close integ safe keep_arg
+    = ([EvIntegrate (flag_for integ IWhfast k) (flag_for integ ISaba k) (Some false)], true) /\
+  getsim_events getsim_body Snapshot integ safe keep_arg
+    = ([EvSync (flag_for integ IWhfast k) (flag_for integ ISaba k)], true).
+Proof. intros [| | |] [|] [|]; split; vm_compute; reflexivity. Qed.
+
+(* ri_whfast.keep_unsynchronized is never written for an archive of another integrator (SABA drives WHFast's operators
+   and reb_integrator_whfast_init rejects keep_unsynchronized together with ri_whfast.safe_mode, which stays 1), and
+   ri_saba.keep_unsynchronized never for a non-SABA archive *)
+Theorem C09_getsim_flags_only_for_the_integrator_in_use : forall mode integ safe keep_arg,
+  Forall (fun e => match e with
+                   | EvSync kw ks | EvIntegrate kw ks _ =>
+                       (integ <> IWhfast -> kw = None) /\ (integ <> ISaba -> ks = None)
+                   end) (fst (getsim_events getsim_body mode integ safe keep_arg)).
+Proof.
+  intros [| |] [| | |] [|] [|]; vm_compute; repeat constructor; intros h; try reflexivity; exfalso; apply h; reflexivity.
+Qed.
 
 (* ------------------------------------------------------------------ WHFast512 (flag level; kernels opaque) *)
 Theorem C09_whfast512_sync_idempotent : forall T (N : Num T) P J (O : @XOps T P J) dt keep (s : @xst P J),
